@@ -113,6 +113,28 @@ def job(j):
                         mm = [] if (isinstance(resp, dict) and resp.get("errors") and not w.dcalls) else ["%s (directive): hook ran / no error: %r %r" % (way, w.dcalls, resp)]
                     flag({"type": w.types[ti - 1], "ti": ti}, way + "-" + where, qq, variables, mm, resp)
 
+    def single_for_list_ways(w):
+        """a single (non-list) literal containing a variable where a list is declared is wrapped, the variable kept"""
+        idx = {render.typeref(t): i for i, t in enumerate(w.types, 1)}
+        for tys, vt, lit, mkexp in [("[In1]", "Int!", "{r: $x}", lambda v: [{"x": 1, "r": v}]),
+                                    ("[[In1]]", "Int!", "[{r: $x}]", lambda v: [[{"x": 1, "r": v}]]),
+                                    ("[[In1]]", "Int!", "{r: $x}", lambda v: [[{"x": 1, "r": v}]]),
+                                    ("[In2!]!", "String", "{s: $x}", lambda v: [{"s": v}]),
+                                    ("[Int]", "Int", "$x", lambda v: [v] if False else v)]:
+            ti = idx[tys]
+            if lit == "$x":
+                continue
+            for where in ("field", "directive"):
+                q = ("query ($x: %s) { s e%d(a: %s) }" if where == "field" else "query ($x: %s) { s @p%d(a: %s) }") % (vt, ti, lit)
+                for val in ((5, 6) if vt.startswith("Int") else ("a", "b")):
+                    resp = w.run(q, {"x": val})
+                    st["n"] += 1
+                    exp = {"a": mkexp(val)}
+                    got = (w.calls[-1][2] if where == "field" and w.calls else (w.dcalls[0][1] if w.dcalls else None))
+                    ok = isinstance(resp, dict) and not resp.get("errors") and got == exp
+                    flag({"type": w.types[ti - 1], "ti": ti}, "single-value-with-variable-for-list-" + where, q, {"x": val},
+                         [] if ok else ["single value for a list (%s): saw %r expected %r (%r)" % (where, got, exp, resp)], resp)
+
     def deep_ways(w):
         """a variable two levels deep in a literal, the same text executed with different values (field and directive positions)"""
         idx = {render.typeref(t): i for i, t in enumerate(w.types, 1)}
@@ -145,6 +167,7 @@ def job(j):
             if cfg.endswith("_0.cfg"):
                 deep_ways(st["w"])
                 null_nested_ways(st["w"])
+                single_for_list_ways(st["w"])
             if cfg.endswith("_0.cfg"):
                 illtyped_ways(st["w"])
             return
